@@ -252,9 +252,20 @@ class EGen:
                 act = self.pick(['resume', 'resume', 'next', 'next', 'end'])
                 if shape == 'ifline_cond':
                     self.note('header_ifline')
-                    stmt = A.IfLine(A.Bin('>', f, N(-5), '%'),
-                                    [A.Print([A.Str('then%d' % q)]),
-                                     A.Print([A.Str('then-b')])],
+                    then = [A.Print([A.Str('then%d' % q)]),
+                            A.Print([A.Str('then-b')])]
+                    second = mode == 'handler' and self.chance(0.4)
+                    if second:
+                        # the condition fails first; after RESUME it holds and
+                        # a statement of the THEN part fails next (its cause is
+                        # never repaired: u0% stays 0), to be left by RESUME
+                        # NEXT
+                        then.insert(1, A.Assign(V('v#'), A.Bin(
+                            '+', N(7), A.Paren(A.Bin('\\', N(9), V('u0%'),
+                                                     '%')), '%')))
+                        act = 'resume'
+                        self.note('second_error_in_then_part')
+                    stmt = A.IfLine(A.Bin('>', f, N(-5), '%'), then,
                                     [A.Print([A.Str('else%d' % q)])]
                                     if self.chance(0.5) else None)
                 elif shape == 'loop_tail_cond':
@@ -277,6 +288,11 @@ class EGen:
                             '+', f, V(cv), A.wider('%', f.t)), N(1000), '%')
                 else:
                     stmt = self.wrap(f, shape)
+            extra_acts = []
+            if kind not in ('outofdata', 'datatype') and \
+                    shape == 'ifline_cond' and mode == 'handler' and \
+                    any(isinstance(x, A.Assign) for x in stmt.then):
+                extra_acts = ['next']
             if mode == 'next':
                 act = 'skip'
             in_loop = self.chance(0.25) and kind not in ('outofdata',
@@ -288,8 +304,8 @@ class EGen:
                                                        V(lv)])]))
                 self.note('in_loop')
                 # the failure happens in both iterations
-                actions.append(act)
-                actions.append(act)
+                actions.extend([act] + extra_acts)
+                actions.extend([act] + extra_acts)
             elif self.chance(0.3):
                 # the failing statement is the first one of a block
                 body.append(brk)
@@ -307,7 +323,7 @@ class EGen:
                     body.append(A.While(A.Bin('<', V(wv), N(1), '%'),
                                         [stmt, tail, A.Assign(V(wv), N(1))]))
                 self.note('first_in_block_' + blk)
-                actions.append(act)
+                actions.extend([act] + extra_acts)
             else:
                 body.append(brk)
                 # statements that generate no code right next to the failing
@@ -327,7 +343,7 @@ class EGen:
                 body.append(stmt)
                 if zs[1] is not None:
                     body.append(zs[1])
-                actions.append(act)
+                actions.extend([act] + extra_acts)
             self.note('action_' + act)
         top.extend(body)
         # continuation: calls and returns must behave normally
